@@ -121,11 +121,11 @@ PROPS = {
         "assumptions": ["symbol tick counts passed to the assembler are non-decreasing (they are a u64 counter)", "FE: non-SAME audio does not produce two bursts that agree (sampled)"],
     },
     "C01": {
-        "thm": ["SameVerif.Thm.C01", "SameVerif.Thm.Chain", "SameVerif.Thm.C01r", "SameVerif.Thm.C01s", "SameVerif.Thm.ChainR"],
+        "thm": ["SameVerif.Thm.C01", "SameVerif.Thm.Chain", "SameVerif.Thm.C01r", "SameVerif.Thm.C01s", "SameVerif.Thm.ChainR", "SameVerif.Thm.C01t", "SameVerif.Thm.ChainT"],
         "suites": ["sigc01"],
         "spec_filter": r"^spec\.sig (c01|fe) ",
         "technique": "Lean 4 theorems about the discrete chain (sync-word ambiguity, warm-up; digital chain theorem under front-end assumptions) + in-situ correspondence of the link and transport models on tapped real runs + sampled signal-level decoding over the property's line-condition domain",
-        "level_text": "PARTIAL by nature: no theorem is about f32 DSP. Proved in Lean: the sync word is four preamble bytes, every misaligned 32-bit window over the preamble is 8 or 24 bit errors away (never within a budget <= 7), warm-up behaviour; one observed burst is delivered exactly once as payload ++ tail (burst_delivered); and the DIGITAL CHAIN composed end to end (Thm/Chain transmission_decoded): for every canonical header H, if the front end delivers what Spec.BurstObserved says for three bursts of H (acquisition within 90 preamble bits, correct hard decisions and equalizer bytes from there, release after the carrier stops) followed by silence for the hold time, with the three segments inside the history window, the voted link-layer tails free of '-' (F7's condition) and the sample counter within one forced-EOM timeout, then link model -> framer -> assembler -> receiver glue emit EXACTLY ONE message event, a StartOfMessage with text exactly H, offset of '+', zero parity count, voting count 0 or |H|; instantiated on a concrete 3-burst stream (demo_decoded). The front-end ASSUMPTIONS were measured against the real DSP and REFINED: the first formalisation (Spec.BurstObserved: open threshold rises exactly when the correlator window is right, and is down in the whole lead and tail) is met by 0 % of 957 real tapped bursts, so Thm/C01r, C01s, ChainR re-prove everything under Spec.StreamObserved — per burst: bits, close threshold and (31 ticks later) open threshold right from an acquisition index acq <= 89, equalizer bytes right, release after the carrier stops; globally: outside the synchronised stretches NO tick has both the open threshold met and a correlator window within maxErrors of the sync word (C01s.stream_bursts, ChainR.stream_decoded, from the INITIAL states). StreamObserved is decidable and its `decide` IS the check the driver runs on every sampled run's taps (C01s.checked_stream_bursts: check = true => the link model delivers exactly the transmitted bursts): per-run certificates, counted in the evidence (suites.sigc01.assumption_checks; quick tier: 779 of 960 bursts, 59 of 160 whole transmissions; the rest sync early on a partially filled window or at a neighbouring bit phase and re-synchronise, which the model reproduces tick for tick but the theorem does not cover yet). C03/C06/C07 supply the combiner, parser and framer theorems the chain rests on. Tie: for every sampled transmission the real receiver's tapped observation streams are replayed on the Lean link model and transport/receiver model, which must reproduce the real link states and the real event trace, timestamps included. Sampled: complete transmissions over rates 8..96 kHz (standard and arbitrary), amplitude, DC, phase, sub-sample start, +-1 % baud, pause 1 s +-5 %, noise to 20 dB SNR, lead-in, voice gap; the oracle demands exactly [StartOfMessage H, EndOfMessage].",
+        "level_text": "PARTIAL by nature: no theorem is about f32 DSP. Proved in Lean: the sync word is four preamble bytes, every misaligned 32-bit window over the preamble is 8 or 24 bit errors away (never within a budget <= 7), warm-up behaviour; one observed burst is delivered exactly once as payload ++ tail (burst_delivered); and the DIGITAL CHAIN composed end to end (Thm/Chain transmission_decoded): for every canonical header H, if the front end delivers what Spec.BurstObserved says for three bursts of H (acquisition within 90 preamble bits, correct hard decisions and equalizer bytes from there, release after the carrier stops) followed by silence for the hold time, with the three segments inside the history window, the voted link-layer tails free of '-' (F7's condition) and the sample counter within one forced-EOM timeout, then link model -> framer -> assembler -> receiver glue emit EXACTLY ONE message event, a StartOfMessage with text exactly H, offset of '+', zero parity count, voting count 0 or |H|; instantiated on a concrete 3-burst stream (demo_decoded). The front-end ASSUMPTIONS were measured against the real DSP and REFINED: the first formalisation (Spec.BurstObserved: open threshold rises exactly when the correlator window is right, and is down in the whole lead and tail) is met by 0 % of 957 real tapped bursts, so Thm/C01r, C01s, ChainR re-prove everything under Spec.StreamObserved — per burst: bits, close threshold and (31 ticks later) open threshold right from an acquisition index acq <= 89, equalizer bytes right, release after the carrier stops; globally: outside the synchronised stretches NO tick has both the open threshold met and a correlator window within maxErrors of the sync word (C01s.stream_bursts, ChainR.stream_decoded, from the INITIAL states). StreamObserved is decidable and its `decide` IS the check the driver runs on every sampled run's taps (C01s.checked_stream_bursts: check = true => the link model delivers exactly the transmitted bursts): per-run certificates, counted in the evidence (suites.sigc01.assumption_checks; quick tier: 779 of 960 bursts, 59 of 160 whole transmissions). Thm/C01t and ChainT generalise once more (Spec.StreamObserved2): per burst a `sync` tick at which the adjusting hit happens, the lead-in run through an abstract squelch automaton (Spec/PreSync preRun, proved to be followed by the link model: preRun_sim) that allows early hits on a partially filled window, hits at a neighbouring bit phase followed by a re-synchronisation, hits dropped at once, and a close-threshold flicker after release; also decidable and decided per run (fe2_all): about 148 of 160 whole transmissions of the quick tier are certified by C01t.checked_stream_bursts2 / ChainT.stream_decoded2; the rest (lead-in under 32 ticks, no alignment) are covered by correspondence and oracle only. C03/C06/C07 supply the combiner, parser and framer theorems the chain rests on. Tie: for every sampled transmission the real receiver's tapped observation streams are replayed on the Lean link model and transport/receiver model, which must reproduce the real link states and the real event trace, timestamps included. Sampled: complete transmissions over rates 8..96 kHz (standard and arbitrary), amplitude, DC, phase, sub-sample start, +-1 % baud, pause 1 s +-5 %, noise to 20 dB SNR, lead-in, voice gap; the oracle demands exactly [StartOfMessage H, EndOfMessage].",
         "level_note": "The DSP above the observation boundary (DC block, AGC, matched filters, timing loop, power tracker, equalizer arithmetic) is NOT modelled or proved; it enters as the tapped observation stream. Amplitude domain is [300, 30000] (see DESIGN.md): with normalised +-1 audio and wide gain limits the additive AGC converges too slowly, which the crate documents.",
         "rule": SIG_RULE,
         "exhaustive": False,
@@ -143,10 +143,10 @@ PROPS = {
         "assumptions": ["ticks are non-decreasing", "the receiver polls on every NoCarrier tick and never while the link is busy (receiver model, C13)"],
     },
     "C05": {
-        "thm": "SameVerif.Thm.C05",
+        "thm": ["SameVerif.Thm.C05", "SameVerif.Thm.C05seq"],
         "suites": ["asmseq", "asmscen", "sigmask", "sigseq"],
         "spec_filter": r"^spec\.(asm c05|asm c05w|sig c05one|sig c05seq) ",
-        "technique": "Lean 4 invariants over all assembler operation histories (history bound, duplicate-suppression invariant) lifted to runs: two consecutive reports of the same text are at least MAX_HISTORY_DURATION apart; re-report after the window; kernel-evaluated counterexample for the known duplicate trailer + scenario sweeps with subsequence and window oracles",
+        "technique": "Lean 4 invariants over all assembler operation histories (history bound, duplicate-suppression invariant) lifted to runs: two consecutive reports of the same text are at least MAX_HISTORY_DURATION apart; re-report after the window; kernel-evaluated counterexample for the known duplicate trailer; run-level ORDER theorems (Thm/C05seq): two different headers transmitted one after the other (three or two bursts each, any polls, first one released before the second arrives, gap outside the zone where exactly one burst of the first is still remembered) are reported exactly once each, in the order transmitted; the same header twice is reported once if the repeat ends inside the window and twice if it begins after it (sharp: repeat_straddling_window_reported); for EVERY sorted history the reports follow the burst log (each report is `combine` of a run of at most three consecutive bursts, and the runs' end positions are strictly increasing); kernel-checked counterexamples for what is false (no poll between the transmissions: F8; the one-burst zone: a decode error, or even a never-transmitted shorter header, can be reported in between) + scenario sweeps with subsequence and window oracles",
         "level_text": "Proved in Lean over every sorted operation list from the initial state: the history never holds more than two bursts and every entry is live and bounded; the duplicate-suppression invariant is preserved by idle and assemble; consequently two consecutive message reports with the same text are at least HIST ticks apart (dedup window, measured from the report, exactly HIST long), and a message whose combine succeeds after the previous entry expired is accepted again (re-report). The at-most-once clause is FALSE today for trailers: eom_twice_counterexample evaluates NNNN@100, NNNN@805, NNNN@1510, X@6215 to two EndOfMessage (known finding F5); eom_once_partial states exactly when a second EOM can occur. Tie and exploration as C02; the oracle checks that the reported sequence is an in-order subsequence of the transmitted one (no duplicates) and both edges of the window.",
         "level_note": "Order preservation across different messages is checked by the subsequence oracle on sweeps, not proved. One open known finding (F5).",
         "rule": ASM_RULE,
